@@ -287,6 +287,13 @@ def representation_lane(ctx, recs):
                 ('fortran', np.asfortranarray(T), None), ('strided', big[::2, :, ::2], None),
                 ('transposed view', np.ascontiguousarray(T.transpose(2, 1, 0)).transpose(2, 1, 0), None),
                 ('indices + float64 preprocessor', idx, pool), ('indices + int16 preprocessor', idx.astype(np.int32), pool.astype(np.int16))]
+    shifted = pool - pool.min()            # the same points after a common translation (decisions depend on differences only)
+    if shifted.max() <= 255:
+      # unsigned / narrow stores: every negative coordinate difference would wrap if it were taken in the store's own type
+      variants.append(('indices + uint8 preprocessor', idx, shifted.astype(np.uint8)))
+      variants.append(('indices + uint16 preprocessor (int8 indices)', idx.astype(np.int8) if idx.max() < 128 else idx, shifted.astype(np.uint16)))
+    if np.abs(pool).max() <= 127:
+      variants.append(('indices + int8 preprocessor', idx, pool.astype(np.int8)))
     extra = (rec['y'],) if rec['kind'] == 'pairs' else ()
     with warnings.catch_warnings():
       warnings.simplefilter('ignore')
